@@ -140,7 +140,7 @@ func c16Sequence(r *rep.Reporter, kind string, si int, fixed time.Time, bases []
 	defer H.Close()
 	defer HB.Close()
 	buckets := []string{"alpha", "beta-2"}
-	keys := []string{"k", "d/x", "d/e/z", "sp ace+%25?#&", "ключ"}
+	keys := []string{"k", "d/x", "d/e/z", "sp ace+%25?#&", "ключ", "/lead", "//dbl/lead", "lead"}
 	r.Eval(1)
 	var trace []lreq
 	var uploads []struct{ b, k, id string }
